@@ -204,6 +204,35 @@ func c15Case(c *fw.Case, typ string, allBits bool) {
 			c.Failf("verifies-under-other-key", map[string]interface{}{"jws": compact, "signer_jwk": k.JWK(), "other_jwk": o.JWK()}, "JWS verifies under a different %s key", ot)
 		}
 	}
+	// EC keys whose coordinates merely begin with (or contain) the signer's: longer or shorter octet strings name another key or none.
+	// (Not asked of Ed25519: the JOSE library reads the first 32 octets of a longer x and zero-extends a shorter one, so such a JWK is
+	// the signer's key in another spelling or a different valid point, not "another key" the statement speaks of - see DESIGN 6.5.)
+	if typ != gen.Ed25519 {
+		x, y := k.XY()
+		type rel struct {
+			name string
+			x, y []byte
+		}
+		rels := []rel{{"x-with-one-more-octet", append(append([]byte{}, x...), byte(r.Intn(256))), y}, {"x-followed-by-y", append(append([]byte{}, x...), y...), y},
+			{"x-with-zero-octet-in-front", append([]byte{0}, x...), y}, {"x-without-its-last-octet", x[:len(x)-1], y}}
+		if len(y) > 0 {
+			rels = append(rels, rel{"y-with-one-more-octet", x, append(append([]byte{}, y...), 0)}, rel{"y-with-zero-octet-in-front", x, append([]byte{0}, y...)}, rel{"y-without-its-last-octet", x, y[:len(y)-1]})
+		}
+		for _, rl := range rels {
+			rj := *jwk
+			rj.X, rj.Y = oracle.B64(rl.x), ""
+			if len(y) > 0 {
+				rj.Y = oracle.B64(rl.y)
+			}
+			c.Count("related-width-keys", 1)
+			c.Evals(1)
+			c.Sig("related-key", typ, rl.name)
+			if _, err := jwsutil.VerifyJWS(compact, &rj); err == nil {
+				c.Failf("verifies-under-key-of-other-width", map[string]interface{}{"jws": compact, "signer_jwk": k.JWK(), "other_jwk": map[string]interface{}{"kty": rj.Kty, "crv": rj.Crv, "x": rj.X, "y": rj.Y}, "relation": rl.name},
+					"JWS verifies under a %s JWK that is not the signer's (%s)", typ, rl.name)
+			}
+		}
+	}
 	// the JWK object that has just verified the JWS is overwritten in place with another key's coordinates (and a struct copy of it is
 	// edited): what verifies is decided by what the object holds now
 	if o := gen.NewKey(r, typ); true {
@@ -619,6 +648,31 @@ func c15Options(c *fw.Case) {
 					if !bytes.Equal(got.Payload, wantPayload) {
 						c.Failf("serialization-option-payload:"+p.name, w, "%s: verified JWS reports another payload than the one verified", p.name)
 					}
+				}
+			}
+			// what a caller reads from a JWS object is the caller's copy: editing it changes neither what the object serializes to nor
+			// whether that verifies (the signed object and the one returned by verification alike)
+			objs := []*jwsutil.JSONWebSignature{obj}
+			if parsed, perr := jwsutil.VerifyJWS(attached, jwk); perr == nil {
+				objs = append(objs, parsed)
+			}
+			for oi, o := range objs {
+				before, _ := o.SerializeCompact(false)
+				sig := o.Signature()
+				c.Count("accessor-results-edited", 1)
+				c.Evals(2)
+				if len(sig) == 0 {
+					c.Failf("signature-accessor-empty", map[string]interface{}{"key_type": typ, "jws": before}, "Signature() of a signed JWS is empty")
+					continue
+				}
+				for i := range sig {
+					sig[i] ^= 0x5a
+				}
+				after, serr := o.SerializeCompact(false)
+				_, verr := jwsutil.VerifyJWS(after, jwk)
+				if serr != nil || after != before || verr != nil {
+					c.Failf("signature-accessor-exposes-state", map[string]interface{}{"key_type": typ, "object": []string{"signed", "parsed"}[oi], "before": before, "after": after, "err": fmt.Sprint(serr, verr)},
+						"editing the byte slice returned by Signature() changed the JWS the object serializes to (verification afterwards: %v)", verr)
 				}
 			}
 		}
